@@ -54,9 +54,9 @@ func (p *planner) iterOp() {
 		case 1:
 			return vCmd{C: "last"}
 		case 2:
-			return vCmd{C: "le", TS: p.boundary("sle")}
+			return vCmd{C: "le", TS: p.boundary("sle"), Raw: rapid.Bool().Draw(p.t, "sle_raw")}
 		}
-		return vCmd{C: "ge", TS: p.boundary("sge")}
+		return vCmd{C: "ge", TS: p.boundary("sge"), Raw: rapid.Bool().Draw(p.t, "sge_raw")}
 	}
 	// A command list is a series of walks: a seek followed by a run of steps that are
 	// either all auto-span or all fixed-span (directions may reverse inside a walk), so
@@ -162,6 +162,16 @@ func c10Step(r *vRun, i int, op vOp) (bool, *drv.Failure) {
 		}
 		return telem.TimeStamp(ts)
 	}
+	// target of a le/ge seek: clamped into the bounds unless the command says otherwise
+	target := func(c vCmd) telem.TimeStamp {
+		if c.Raw {
+			if c.TS < int64(bounds.Start) || c.TS > int64(bounds.End) {
+				r.st.Probe("iter_seek_target_outside_bounds")
+			}
+			return telem.TimeStamp(c.TS)
+		}
+		return clamp(c.TS)
+	}
 	walkFwd, walkBwd := false, false // directions stepped since the last seek
 	fwdRun, bwdRun := false, false   // a SeekFirst/SeekLast-started run in one direction is in progress
 	var seen map[int64]int
@@ -208,18 +218,18 @@ func c10Step(r *vRun, i int, op vOp) (bool, *drv.Failure) {
 			seen = map[int64]int{}
 			continue
 		case "le":
-			judged = it.SeekLE(r.ctx, clamp(c.TS))
+			judged = it.SeekLE(r.ctx, target(c))
 			if pit != nil {
-				if f := differs(ci, c, pit.SeekLE(clamp(c.TS)), judged); f != nil {
+				if f := differs(ci, c, pit.SeekLE(target(c)), judged); f != nil {
 					return false, f
 				}
 			}
 			lastDir, fwdRun, bwdRun, walkFwd, walkBwd = "", false, false, false, false
 			continue
 		case "ge":
-			judged = it.SeekGE(r.ctx, clamp(c.TS))
+			judged = it.SeekGE(r.ctx, target(c))
 			if pit != nil {
-				if f := differs(ci, c, pit.SeekGE(clamp(c.TS)), judged); f != nil {
+				if f := differs(ci, c, pit.SeekGE(target(c)), judged); f != nil {
 					return false, f
 				}
 			}
@@ -308,10 +318,12 @@ func c10Step(r *vRun, i int, op vOp) (bool, *drv.Failure) {
 		if !fwd {
 			dirName = "bwd"
 		}
-		if fwd && v.Start != prev.End && !(v.Span() == 0 && v.Start == bounds.End) {
+		// (a seek may leave the view outside the bounds; the step starts from the nearest
+		// point inside them)
+		if fwd && v.Start != clamp(int64(prev.End)) && !(v.Span() == 0 && v.Start == bounds.End) {
 			return false, drv.Failf("iter-adjacency", kind+":"+dtClass(ch), "%s: view %v does not start where the previous view %v ended", what(ci, c), v, prev)
 		}
-		if !fwd && v.End != prev.Start && !(v.Span() == 0 && v.End == bounds.Start) {
+		if !fwd && v.End != clamp(int64(prev.Start)) && !(v.Span() == 0 && v.End == bounds.Start) {
 			return false, drv.Failf("iter-adjacency", kind+":"+dtClass(ch), "%s: view %v does not end where the previous view %v started", what(ci, c), v, prev)
 		}
 		if v.Start < bounds.Start || v.End > bounds.End {
